@@ -94,10 +94,17 @@ TrProbe == /\ IsEvent("probe")
            /\ Range(Cur.listed) = Range(Cur.open)
            /\ UNCHANGED <<ainfo, cinfo, ns, inCall, normalGen>>
 
+\* the same, sampled in the window in which a transport connection is dead and the swarm does not know yet:
+\* connectedness counts live connections only (the listed ones may still include the dead one)
+TrProbeSt == /\ IsEvent("probe_st")
+             /\ Range(Cur.open) \subseteq DOMAIN cinfo
+             /\ Cur.st = Truth(Range(Cur.open))
+             /\ UNCHANGED <<ainfo, cinfo, ns, inCall, normalGen>>
+
 \* at the end no waiter for a direct connection is left behind
 TrWaiters == IsEvent("waiters") /\ Cur.n = 0 /\ inCall = {} /\ UNCHANGED <<ainfo, cinfo, ns, inCall, normalGen>>
 
-TraceNext == \/ TrReset \/ TrAddr \/ TrConnAdd \/ TrNoop \/ TrTStart \/ TrTEnd \/ TrDialCall \/ TrDialRet
+TraceNext == \/ TrProbeSt \/ TrReset \/ TrAddr \/ TrConnAdd \/ TrNoop \/ TrTStart \/ TrTEnd \/ TrDialCall \/ TrDialRet
              \/ TrNsCall \/ TrNsStream \/ TrNsNoDirect \/ TrNsCtx \/ TrNsDialErr \/ TrNsOther \/ TrProbe \/ TrWaiters
 TraceSpec == TraceInit /\ [][TraceNext]_vars
 HighWater == TLCSet(1, IF l > TLCGet(1) THEN l ELSE TLCGet(1))
